@@ -72,6 +72,7 @@ def evaluate(P, cases, tier):
         for h in info2.get('nontrivial_hashes', []):
             nontrivial.add(h)
         stats['compared'] += info2.get('compared', 0)
+        stats['extra'] = {k: v for k, v in info2.items() if k not in ('dist', 'nontrivial_hashes', 'compared')}
         cases.extend(extra)          # so that replays / shrinking can find them by id
     stats['distinct_nontrivial'] = len(nontrivial)
     return findings, stats, impl, model
@@ -274,6 +275,7 @@ def main(argv=None):
             'rule': getattr(P, 'RULE', ''), 'samples': samples or ['(no cases: build failure)'],
             'traces_validated_against_impl': stats.get('compared', 0),
             'input_distribution': stats.get('dist', {}),
+            'second_phase': stats.get('extra', {}),
             'model_vs_impl_disagreements': len(k_fail), 'oracle_failures_on_impl': len(o_fail),
             'known_findings_printed': known_printed,
             'proof_problems': t_problems,
